@@ -54,6 +54,11 @@ CHECKS = {
         text="exhaustive: 2 threads x 2 extractions x <= 3 environment actions per attribute vector (own glue, built-in, both, raising, importing, removing); replay: the controller releases exactly the thread TLC scheduled and compares sys.modules, pending table, module attributes, cache, lock, call log; the property is also evaluated on the real state at every extraction return",
         note="F4 (length-only cache) known finding with an independent history signature; F9 fixed; re-created module objects and re-entrant glue (O3) not modelled",
         ref="3.4, 4 C17"),
+    "C13": dict(
+        technique="TLA+ spec of the thread-local option stack against per-thread call trees (Options.tla), TLC exhaustive over trees x interleavings; simulated schedules replayed on real threads whose hooks grow the call tree one action at a time",
+        text="Scoped / IdleIsNone / Isolated for all call trees of depth <= 3 on two threads; 2- and 3-thread schedules of 24 actions replayed with the public-API observation (stub vs full, contexts vs bare, guard error) compared after every action on 3.9-3.12",
+        note="depth <= 3; observations only through extract_child / fill_context; hooks that raise are represented by extract_outermost ending by exception through push()'s finally",
+        ref="3.3, 4 C13"),
     "C16": dict(
         technique="TLC on ExtractIter with generator-type wrappers (OriginContractX, OutermostIsFirst); origin contract evaluated on every real chain (suspended and running) via API and via the trace spec's verdict; extract_outermost vs extract on given tables",
         text="origin contract and extract_outermost == first frame hold for all tables in the bound on the model (with the F5 excuse named), for every chain of the C03 space on 3.9-3.12 including running carriers, and for thousands of synthetic table sets",
